@@ -1056,6 +1056,11 @@ func (in *Interp) binop(op token.Token, a, b Value, sym string) Value {
 			if ok1 && ok2 {
 				return VBool{Known: true, V: (xs == ys) == (op == token.EQL)}
 			}
+			// a user-chosen name (NAME hole) is a real identifier: never "_" and never empty
+			isName := func(v VStr) bool { return len(v.Parts) == 1 && v.Parts[0].Hole != nil && v.Parts[0].Hole.Kind == "NAME" }
+			if (ok1 && (xs == "_" || xs == "") && isName(y)) || (ok2 && (ys == "_" || ys == "") && isName(x)) {
+				return VBool{Known: true, V: op == token.NEQ}
+			}
 			return VBool{Sym: x.render() + op.String() + y.render()}
 		}
 	case VInt:
@@ -1163,6 +1168,9 @@ func (in *Interp) eval(fr *Frame, e ast.Expr) Value {
 			}
 		}
 		if v, ok := o.(*types.Var); ok && v.Pkg() != nil && v.Parent() == v.Pkg().Scope() {
+			if cv, ok := in.globalConst(v); ok {
+				return cv
+			}
 			return in.opaqueOfType("global:"+v.Name(), v.Type())
 		}
 		return &VOpaque{Origin: "ident:" + x.Name}
@@ -1869,7 +1877,7 @@ func (in *Interp) typesModel(f *VOpaque, args []Value, org string, t types.Type)
 			return r.attr(f.meth, func() Value { return &VOpaque{Origin: org, Kind: "*types.Tuple"} }), true
 		}
 		if f.meth == "Name" {
-			return r.attr(f.meth, func() Value { return holeV(&Hole{Kind: "NAME", Origin: org, Val: r}) }), true
+			return r.attr(f.meth, func() Value { return in.nameOfVar(r, org) }), true
 		}
 		return r.attr(f.meth, func() Value { return &VOpaque{Origin: org} }), true
 	case "Len", "NumFields", "NumMethods":
@@ -1971,7 +1979,7 @@ func (in *Interp) varName(o *VOpaque) VStr {
 	if a, ok := o.attrs["Name"]; ok {
 		return a.(VStr)
 	}
-	return o.attr("Name", func() Value { return holeV(&Hole{Kind: "NAME", Origin: o.Origin + ".Name()", Val: o}) }).(VStr)
+	return o.attr("Name", func() Value { return in.nameOfVar(o, o.Origin+".Name()") }).(VStr)
 }
 
 func (in *Interp) varType(o *VOpaque) Value {
@@ -2003,7 +2011,13 @@ func (in *Interp) isPurePredicate(f *VFunc) bool {
 		return false
 	}
 	for i := 0; i < sig.Params().Len(); i++ {
-		if !strings.Contains(sig.Params().At(i).Type().String(), "go/types.") {
+		ts := sig.Params().At(i).Type().String()
+		if !strings.Contains(ts, "go/types.") {
+			return false
+		}
+		// predicates over tuples/variables (parameter lists) are cheap and are interpreted, so that they stay
+		// consistent with the names and arities chosen on the path
+		if strings.HasSuffix(ts, "go/types.Tuple") || strings.HasSuffix(ts, "go/types.Var") {
 			return false
 		}
 	}
@@ -2064,4 +2078,83 @@ func (in *Interp) switchID(sw *ast.SwitchStmt) string {
 		}
 	}
 	return "?"
+}
+
+var tupleElemRe = regexp.MustCompile(`\.(Params|Results)\(\)\[\d+\]$`)
+
+// nameOfVar: the name of a *types.Var. Struct fields always have a user-chosen name (a NAME hole); parameters may be
+// named, blank ("_") or unnamed (""); results are usually unnamed.
+func (in *Interp) nameOfVar(o *VOpaque, org string) Value {
+	named := holeV(&Hole{Kind: "NAME", Origin: org, Val: o})
+	m := tupleElemRe.FindStringSubmatch(o.Origin)
+	if m == nil {
+		return named
+	}
+	// Go requires a parameter or result list to be either entirely named or entirely unnamed
+	tuple := o.Origin[:strings.LastIndex(o.Origin, "[")]
+	if m[1] == "Results" {
+		if in.decide("NMT:"+tuple+":unnamed|named", 2) == 0 {
+			return lit("")
+		}
+		return named
+	}
+	if in.decide("NMT:"+tuple+":named|unnamed", 2) == 1 {
+		return lit("")
+	}
+	if in.decide("NM:"+o.Origin+":named|blank", 2) == 1 {
+		return lit("_")
+	}
+	return named
+}
+
+// globalConst evaluates a package-level variable whose declaration initialises it with a constant expression and which
+// is never assigned elsewhere (e.g. `var blackIdentifier = "_"`).
+func (in *Interp) globalConst(v *types.Var) (Value, bool) {
+	for _, p := range in.repo.Pkgs {
+		if p.Types != v.Pkg() {
+			continue
+		}
+		var val Value
+		found := false
+		assigned := false
+		for _, f := range p.Syntax {
+			ast.Inspect(f, func(n ast.Node) bool {
+				switch x := n.(type) {
+				case *ast.ValueSpec:
+					for i, nm := range x.Names {
+						if p.TypesInfo.Defs[nm] == v && i < len(x.Values) {
+							if tv, ok := p.TypesInfo.Types[x.Values[i]]; ok && tv.Value != nil {
+								switch tv.Value.Kind() {
+								case constant.String:
+									val, found = lit(constant.StringVal(tv.Value)), true
+								case constant.Int:
+									n, _ := constant.Int64Val(tv.Value)
+									val, found = VInt{Known: true, V: int(n)}, true
+								case constant.Bool:
+									val, found = VBool{Known: true, V: constant.BoolVal(tv.Value)}, true
+								}
+							}
+						}
+					}
+				case *ast.AssignStmt:
+					for _, l := range x.Lhs {
+						if id, ok := l.(*ast.Ident); ok && p.TypesInfo.Uses[id] == v {
+							assigned = true
+						}
+					}
+				case *ast.UnaryExpr:
+					if x.Op == token.AND {
+						if id, ok := x.X.(*ast.Ident); ok && p.TypesInfo.Uses[id] == v {
+							assigned = true
+						}
+					}
+				}
+				return true
+			})
+		}
+		if found && !assigned {
+			return val, true
+		}
+	}
+	return nil, false
 }
